@@ -239,6 +239,60 @@ theorem assemble_chunks (shape : List Nat) (es maxBytes : Nat) (b : Bytes) (hthr
   simp only [pieceMembers, List.map_map]
   exact congrArg _ hflat
 
+/-- The same into an existing buffer of the tensor's size (in-place restore of a chunked tensor): the old contents
+are overwritten completely. -/
+theorem assemble_chunks_onto (init : Bytes) (shape : List Nat) (es maxBytes : Nat) (b : Bytes) (hthr : 1 ≤ maxBytes)
+    (hpos : 0 < Ts.Chunk.numel shape * es) (hb : b.length = Ts.Chunk.numel shape * es)
+    (ps : List (Nat × Nat)) (hps : pieces shape es maxBytes = .ok ps)
+    (done : List ((Nat × Nat) × Bytes)) (hperm : done.Perm (pieceMembers shape es b ps))
+    (hinit : init.length = Ts.Chunk.numel shape * es) :
+    Ts.Slab.stageOnto init done = .ok b := by
+  obtain ⟨ps', he, _, hc, hall⟩ := pieces_spec shape es maxBytes hthr hpos
+  rw [hps] at he; cases he
+  obtain ⟨ps'', he2, hflat, hlen⟩ := Ts.C16.C16_chunk_bytes_concat shape es maxBytes b hthr hpos hb
+  rw [hps] at he2; cases he2
+  have hsc := consec_scale (rowBytes shape es) ps 0 _ hc
+  have htot : (normShape shape).1 * rowBytes shape es = Ts.Chunk.numel shape * es := by
+    rw [← numel_normShape shape]; simp [rowBytes, Nat.mul_assoc]
+  rw [Nat.zero_mul, htot] at hsc
+  have hrow : 0 < rowBytes shape es := by
+    rcases Nat.eq_zero_or_pos (rowBytes shape es) with h | h
+    · rw [← htot, h] at hpos; simp at hpos
+    · exact h
+  have hkeys : (pieceMembers shape es b ps).map (·.1) = ps.map (fun p => (p.1 * rowBytes shape es, (p.1 + p.2) * rowBytes shape es)) := by
+    simp [pieceMembers, pieceRange]
+  have hcons : Consec 0 ((pieceMembers shape es b ps).map (·.1)) (Ts.Chunk.numel shape * es) := by
+    rw [hkeys]; exact hsc
+  have hlen' : ∀ m ∈ pieceMembers shape es b ps, m.2.length = m.1.2 - m.1.1 := by
+    intro m hm
+    simp only [pieceMembers, List.mem_map] at hm
+    obtain ⟨p, hp, rfl⟩ := hm
+    rw [hlen p hp]
+    simp only [Chunk.nbytes, numel_toChunk, pieceRange, rowBytes, Nat.add_mul, Nat.mul_assoc]
+    omega
+  -- ranges of distinct pieces are distinct (each is non-empty and they are consecutive)
+  have hdist : (pieceMembers shape es b ps).Pairwise (fun a c => a.1 ≠ c.1) := by
+    have hpw := hcons.pairwise
+    rw [List.pairwise_map] at hpw
+    refine hpw.imp_of_mem ?_
+    intro a c ha hc' hle heq
+    have hla := hlen' a ha
+    simp only [pieceMembers, List.mem_map] at ha
+    obtain ⟨p, hp, rfl⟩ := ha
+    have hp2 := (hall p hp).1
+    simp only [pieceRange] at hle heq
+    rw [← heq] at hle
+    simp only at hle
+    have : p.1 * rowBytes shape es < (p.1 + p.2) * rowBytes shape es := by
+      apply Nat.mul_lt_mul_of_pos_right _ hrow; omega
+    omega
+  have hd := dictOfList_eq_self _ hdist
+  obtain ⟨slab, hs, _, hfl, _⟩ := Ts.Slab.stageOnto_spec (Ts.Chunk.numel shape * es) init hinit (pieceMembers shape es b ps) done
+    hcons hlen' (by rw [hd]; exact hperm)
+  rw [hs, hfl]
+  simp only [pieceMembers, List.map_map]
+  exact congrArg _ hflat
+
 /-- One leaf, any location type: if every write unit of the leaf is recorded at a location that holds the
 unit's staged bytes, the recorded entry restores exactly the leaf — plain tensor, chunked tensor (chunks
 consumed in any order, possibly stored by different writers) or blob. -/
@@ -337,6 +391,120 @@ theorem restoreLeafG_ok {L : Type} (cfg : Cfg) (hc : 1 ≤ cfg.chunk) (store : L
           rw [this]
         have hstg := assemble_chunks t.shape es cfg.chunk t.bytes hc hnum hblen ps hps _ hperm
         simp only [restoreLeafWith, hes, hmap, hstg, hfm]
+
+/-- One leaf with an explicit restore target: `none`, a pre-allocated tensor of the saved dtype and shape with ANY old
+contents (filled in place, chunk by chunk for a chunked entry), or a tensor of another dtype / shape (replaced by a
+fresh one) — the restored leaf is exactly the saved one in every case. -/
+theorem restoreLeafInto_ok {L : Type} (cfg : Cfg) (hc : 1 ≤ cfg.chunk) (store : L → Option Bytes)
+    (rd : Nat → List Nat → ULoc L → Except Err Bytes)
+    (hrd : ∀ u bs es shape, UnitStored store u bs → Ts.Chunk.numel shape * es = bs.length → rd es shape u = .ok bs)
+    (order : List ((Nat × Nat) × ULoc L) → List ((Nat × Nat) × ULoc L))
+    (horder : ∀ cs, (order cs).Perm cs)
+    (i : Nat) (l : Leaf) (hl : LeafOk l) (ws : List (WReq UnitId × Bytes)) (hws : leafWrites cfg i l = .ok ws)
+    (pls : List (ULoc L)) (hlen : pls.length = ws.length)
+    (hst : ∀ e ∈ ws.zip pls, UnitStored store e.2 e.1.2)
+    (dst : Option Ts.Serial.Tensor) (hdst : ∀ t, dst = some t → t.WF) :
+    ∃ en, entryOfUnits l (ws.zip pls) = .ok en ∧ restoreLeafInto store rd order dst en = .ok l := by
+  cases l with
+  | blob p =>
+    simp only [leafWrites, Except.ok.injEq] at hws
+    subst hws
+    match pls, hlen with
+    | [o], _ =>
+      refine ⟨.blob o, by simp [entryOfUnits], ?_⟩
+      have := readUnit_of_stored _ _ _ (hst ((⟨(i, none), false, false, false, p.length⟩, p), o) (by simp))
+      simp only at this
+      simp [restoreLeafInto, this, Except.map]
+  | tensor t =>
+    obtain ⟨hd, hwf⟩ := hl
+    obtain ⟨es, hes, hespos, hblen, hcase⟩ := leafWrites_tensor cfg hc i t hd hwf
+    have hfm : Ts.Serial.fromMemoryview t.dtype t.shape t.bytes = .ok t := by
+      have := Ts.Serial.fromMemoryview_ok hes hespos t.shape t.bytes (by rw [hblen, numel_eq, Nat.mul_comm])
+      simpa using this
+    rcases hcase with hplain | ⟨ps, hps, hne, hcons, hpos2, hnum, hchunked⟩
+    · rw [hplain] at hws
+      simp only [Except.ok.injEq] at hws
+      subst hws
+      match pls, hlen with
+      | [o], _ =>
+        refine ⟨.tensor t.dtype t.shape o, by simp [entryOfUnits], ?_⟩
+        have := hrd _ _ es t.shape (hst ((⟨(i, none), true, true, false, Ts.Chunk.numel t.shape * es⟩, t.bytes), o) (by simp))
+          (by simp only; exact hblen.symm)
+        simp only at this
+        simp [restoreLeafInto, hes, this, hfm]
+    · rw [hchunked] at hws
+      simp only [Except.ok.injEq] at hws
+      subst hws
+      -- the units, and what each of them carries
+      generalize hU : (ps.map (fun p => ((⟨(i, some p), true, true, false, p.2 * rowBytes t.shape es⟩ : WReq UnitId),
+          pieceBytes t.shape es t.bytes p))).zip pls = units at *
+      have hfst : units.map (·.1) = ps.map (fun p => ((⟨(i, some p), true, true, false, p.2 * rowBytes t.shape es⟩ : WReq UnitId),
+          pieceBytes t.shape es t.bytes p)) := by
+        rw [← hU]; exact List.map_fst_zip (by simp [hlen])
+      have hunit : ∀ x ∈ units, ∃ p ∈ ps, x.1.1.path.2 = some p ∧ x.1.2 = pieceBytes t.shape es t.bytes p := by
+        intro x hx
+        have : x.1 ∈ units.map (·.1) := List.mem_map_of_mem hx
+        rw [hfst, List.mem_map] at this
+        obtain ⟨p, hp, hxp⟩ := this
+        exact ⟨p, hp, by rw [← hxp], by rw [← hxp]⟩
+      have hpieces : units.map (fun x => x.1.1.path.2.getD (0, 0)) = ps := by
+        have : units.map (fun x => x.1.1.path.2.getD (0, 0)) = (units.map (·.1)).map (fun w => w.1.path.2.getD (0, 0)) := by
+          rw [List.map_map]; rfl
+        rw [this, hfst, List.map_map]
+        calc List.map _ ps = List.map id ps := List.map_congr_left (fun p _ => rfl)
+          _ = ps := List.map_id ps
+      have hune : units ≠ [] := by
+        intro h; rw [h] at hpieces; simp at hpieces; exact hne hpieces
+      obtain ⟨e, rest, hcons'⟩ := List.exists_cons_of_ne_nil hune
+      obtain ⟨p0, _, hp0, _⟩ := hunit e (by rw [hcons']; simp)
+      let chunks := units.map (fun x => (x.1.1.path.2.getD (0, 0), x.2))
+      refine ⟨.chunked t.dtype t.shape chunks, ?_, ?_⟩
+      · rw [hcons']; simp only [entryOfUnits, hp0, chunks, hcons']
+      · -- reads of the chunks, in the consumers' completion order
+        have hplen : ∀ p ∈ ps, Ts.Chunk.numel (p.2 :: (normShape t.shape).2) * es = (pieceBytes t.shape es t.bytes p).length := by
+          intro p hp
+          obtain ⟨ps', he2, _, hl2⟩ := Ts.C16.C16_chunk_bytes_concat t.shape es cfg.chunk t.bytes hc hnum hblen
+          rw [hps] at he2; cases he2
+          rw [hl2 p hp]
+          simp [Chunk.nbytes, numel_toChunk, Ts.Chunk.numel]
+        have hchunk : ∀ c ∈ order chunks,
+            (rd es (c.1.2 :: (normShape t.shape).2) c.2).map (fun b => (pieceRange t.shape es c.1, b))
+              = .ok (pieceRange t.shape es c.1, pieceBytes t.shape es t.bytes c.1) := by
+          intro c hcm
+          have hc2 : c ∈ chunks := (horder chunks).mem_iff.mp hcm
+          simp only [chunks, List.mem_map] at hc2
+          obtain ⟨x, hx, rfl⟩ := hc2
+          obtain ⟨p, hpm, hp, hb⟩ := hunit x hx
+          simp only [hp, Option.getD_some]
+          have hs := hst x hx
+          rw [hb] at hs
+          rw [hrd _ _ es (p.2 :: (normShape t.shape).2) hs (hplen p hpm)]; rfl
+        have hmap := mapE_ok _ (fun c => (pieceRange t.shape es c.1, pieceBytes t.shape es t.bytes c.1)) (order chunks) hchunk
+        have hperm : ((order chunks).map (fun c => (pieceRange t.shape es c.1, pieceBytes t.shape es t.bytes c.1))).Perm
+            (pieceMembers t.shape es t.bytes ps) := by
+          have h1 := (horder chunks).map (fun c => (pieceRange t.shape es c.1, pieceBytes t.shape es t.bytes c.1))
+          refine h1.trans ?_
+          have : chunks.map (fun c => (pieceRange t.shape es c.1, pieceBytes t.shape es t.bytes c.1))
+              = pieceMembers t.shape es t.bytes ps := by
+            simp only [chunks, pieceMembers, List.map_map]
+            rw [← hpieces, List.map_map]; rfl
+          rw [this]
+        have hinit : (destBytes t.dtype t.shape es dst).length = Ts.Chunk.numel t.shape * es := by
+          unfold destBytes
+          cases dst with
+          | none => simp
+          | some d =>
+            simp only
+            split
+            · rename_i hm
+              have hw := hdst d rfl
+              unfold Ts.Serial.Tensor.WF at hw
+              rw [hm.1, hes] at hw
+              simp only [Option.map_some, Option.some.injEq] at hw
+              rw [← hw, hm.2, numel_eq, Nat.mul_comm]
+            · simp
+        have hstg := assemble_chunks_onto _ t.shape es cfg.chunk t.bytes hc hnum hblen ps hps _ hperm hinit
+        simp only [restoreLeafInto, hes, hmap, hstg, hfm]
 
 /-- One leaf: from the placements of its own write units and the fact that every unit reads back its staged
 bytes, the recorded entry restores exactly the leaf — plain tensor, chunked tensor (chunks consumed in any
